@@ -94,7 +94,7 @@ func (k *Kernel) startCall(c *CallState) {
 	case "raw":
 		go k.rawClient(c)
 	case "ts":
-		go k.tsClient(c)
+		k.tsStartCall(c)
 	default:
 		go k.goClient(c)
 	}
